@@ -196,6 +196,14 @@ def target_alphabet(n, seed=0, quarter=True):
             r = (k + f) / n if n else 0.0
             if 0.0 <= r <= 1.0:
                 out.append(r)
+    if quarter and n:
+        # r*n within 1e-9 of an integer without being one (dyadic offsets, exact): snapping of the interpolation
+        # weight would turn 'linear' into 'lower' / 'higher' there
+        for k in sorted({1, n // 2, n - 1}):
+            for f in (2.0 ** -31, 2.0 ** -34, 1 - 2.0 ** -31, 1 - 2.0 ** -34):
+                r = (k + f) / n
+                if 0.0 <= r <= 1.0:
+                    out.append(r)
     seen, res = set(), []
     for t in out:
         if t not in seen:
